@@ -310,8 +310,20 @@ def _check_method(rep, execcls, defcls, f: FuncInfo, meth, cfg, kind, rc):
             sh = _argshape(n.value)
             if any(k == "pos" and t == fn for k, t, _ in sh) and (kwarg is None or any(k == "kwsplat" and t == kwarg for k, t, _ in sh)):
                 partials |= {t.id for t in n.targets if isinstance(t, ast.Name)}
+    from .c65_extra import backend_fn_aliases
+
+    fn_aliases = backend_fn_aliases(f.node)
+    flag_defs = {}
+    for n_ in walk_shallow(f.node):
+        if isinstance(n_, ast.Assign) and len(n_.targets) == 1 and isinstance(n_.targets[0], ast.Name) and isinstance(n_.value, (ast.BoolOp, ast.Attribute, ast.Compare, ast.UnaryOp)):
+            flag_defs.setdefault(n_.targets[0].id, []).append(n_.value)
+    flag_defs = {k: v[0] for k, v in flag_defs.items() if len(v) == 1}
     count = 0
     for st, conds in _sites(f.node.body, []):
+        # branch conditions held in a local flag (`unpack_args = self._cfg.map_unpack and …`) are read through
+        conds = [((flag_defs[t.id] if isinstance(t, ast.Name) and t.id in flag_defs else
+                   (ast.UnaryOp(op=ast.Not(), operand=flag_defs[t.operand.id]) if isinstance(t, ast.UnaryOp) and isinstance(t.op, ast.Not)
+                    and isinstance(t.operand, ast.Name) and t.operand.id in flag_defs else t)), pol) for t, pol in conds]
         feas = True
         for test, pol in conds:
             v = _eval(test, cfg, kind, rc)
@@ -336,6 +348,10 @@ def _check_method(rep, execcls, defcls, f: FuncInfo, meth, cfg, kind, rc):
                     and callee.func.attr in ("_submit_fn", "_map_fn", "_starmap_fn"):
                 slot = callee.func.attr[1:]
                 bname = cfg.get(slot)
+            elif isinstance(callee, ast.Name) and callee.id in fn_aliases:
+                # backend_submit = self._submit_fn(exec_be); backend_submit(fn, …)
+                slot = fn_aliases[callee.id]
+                bname = cfg.get(slot)
             elif isinstance(callee, ast.Attribute) and isinstance(callee.value, ast.Name) and callee.value.id == "exec_be":
                 slot, bname = "direct", callee.attr
             else:
@@ -353,56 +369,57 @@ def _check_method(rep, execcls, defcls, f: FuncInfo, meth, cfg, kind, rc):
             kw_via_partial = first is not None and first[1] in partials
             problems = []
             if not fn_ok:
-                problems.append(f"first argument {first[1] if first else None!r} is not the user's function")
+                problems.append(("fn-not-first", f"first argument {first[1] if first else None!r} is not the user's function"))
             has_kwsplat = any(k == "kwsplat" and t == kwarg for k, t, _ in args)
             if bshape == "varargs":
                 if vararg and any(k == "pos" and t == vararg for k, t, _ in args):
-                    problems.append(f"`{vararg}` is passed unstarred to {kind}.{bname}(fn, *args, **kwargs): the function receives the whole tuple as one argument")
+                    problems.append(("args-unstarred", f"`{vararg}` is passed unstarred to {kind}.{bname}(fn, *args, **kwargs): the function receives the whole tuple as one argument"))
                 if kwarg and not has_kwsplat and not kw_via_partial:
-                    problems.append(f"**{kwarg} never reaches the function")
+                    problems.append(("kwargs-lost", f"**{kwarg} never reaches the function"))
             elif bshape == "apply":
                 if vararg and any(k == "star" and t == vararg for k, t, _ in args):
-                    problems.append(f"`*{vararg}` is unpacked into {kind}.{bname}(func, args, kwds), whose second parameter is the argument tuple")
+                    problems.append(("args-starred-into-apply", f"`*{vararg}` is unpacked into {kind}.{bname}(func, args, kwds), whose second parameter is the argument tuple"))
                 if has_kwsplat:
-                    problems.append(f"**{kwarg} is expanded into {kind}.{bname}'s own parameters (func, args, kwds) instead of being passed as the kwds dict: "
-                                    "any keyword argument raises TypeError")
+                    problems.append(("kwargs-into-apply", f"**{kwarg} is expanded into {kind}.{bname}'s own parameters (func, args, kwds) instead of being passed as the kwds dict: "
+                                    "any keyword argument raises TypeError"))
             elif bshape == "iterables":
                 if vararg and any(k == "pos" and t == vararg for k, t, _ in args):
-                    problems.append(f"`{vararg}` (the tuple of iterables) is passed unstarred to {kind}.{bname}(fn, *iterables): it maps over the tuple, "
-                                    "calling fn once per iterable instead of once per element")
+                    problems.append(("iterables-unstarred", f"`{vararg}` (the tuple of iterables) is passed unstarred to {kind}.{bname}(fn, *iterables): it maps over the tuple, "
+                                    "calling fn once per iterable instead of once per element"))
                 if has_kwsplat and kind != "repo":
-                    problems.append(f"**{kwarg} is expanded into {kind}.{bname}'s own keyword parameters")
+                    problems.append(("kwargs-into-backend", f"**{kwarg} is expanded into {kind}.{bname}'s own keyword parameters"))
                 if kwarg and not has_kwsplat and not kw_via_partial:
-                    problems.append(f"**{kwarg} never reaches the function")
+                    problems.append(("kwargs-lost", f"**{kwarg} never reaches the function"))
             elif bshape == "one-iterable":
                 if vararg and any(k == "pos" and t == vararg for k, t, _ in args):
-                    problems.append(f"`{vararg}` (the tuple of iterables) is passed as the single iterable of {kind}.{bname}(func, iterable): it maps over "
-                                    "the tuple, calling fn once per iterable instead of once per element")
+                    problems.append(("iterables-unstarred", f"`{vararg}` (the tuple of iterables) is passed as the single iterable of {kind}.{bname}(func, iterable): it maps over "
+                                    "the tuple, calling fn once per iterable instead of once per element"))
                 if vararg and any(k == "star" and t == vararg for k, t, _ in args):
-                    problems.append(f"`*{vararg}` is unpacked into {kind}.{bname}(func, iterable, chunksize)")
+                    problems.append(("iterables-starred-into-pool-map", f"`*{vararg}` is unpacked into {kind}.{bname}(func, iterable, chunksize)"))
                 if kwarg and not kw_via_partial:
-                    problems.append(f"**{kwarg} never reaches the function")
+                    problems.append(("kwargs-lost", f"**{kwarg} never reaches the function"))
             elif bshape == "tuples":
                 if seq:
                     direct = any(k == "pos" and t in (seq, f"list({seq})", f"tuple({seq})") for k, t, _ in args)
                     transposed = any(k == "pos" and t.replace(" ", "").startswith(f"zip(*{seq}") for k, t, _ in args)
                     if transposed or any(k == "star" and t == seq for k, t, _ in args):
-                        problems.append(f"the sequence of argument tuples `{seq}` is transposed/unpacked before {kind}.{bname}(func, iterable_of_tuples): "
-                                        "each tuple must be one call's arguments")
+                        problems.append(("tuples-transposed", f"the sequence of argument tuples `{seq}` is transposed/unpacked before {kind}.{bname}(func, iterable_of_tuples): "
+                                        "each tuple must be one call's arguments"))
                     elif not direct:
                         unknown_note = f"argument of {kind}.{bname} is derived from `{seq}` in a way this analysis does not model"
                         rep.unknown("R-C65-forward", where, unknown_note)
                 if kwarg and not kw_via_partial and not (kind == "repo" and has_kwsplat):
-                    problems.append(f"**{kwarg} never reaches the function")
+                    problems.append(("kwargs-lost", f"**{kwarg} never reaches the function"))
             if problems:
                 # the finding is identified by the statement AND the branch condition under which it runs: the
                 # condition determines which inputs fail, so widening it is a different violation
                 # locals are written by position of first binding (_1, _2, …): renaming a local is not a different violation
                 ph = local_placeholders(f.node)
                 guard = " and ".join((norm_renamed(t, ph) if pol else f"not ({norm_renamed(t, ph)})") for t, pol in conds) or "always"
-                text = f"{norm_renamed(st, ph)}  [when {guard}]"
-                for p in problems:
-                    rep.refuted("R-C65-forward", rel, qn, text, f"{p} (executor {execcls.name}, backend {kind}.{bname})",
+                # the finding is identified by what is wrong and under which configuration branch, not by how the statement is spelled
+                for pcode, p in problems:
+                    text = f"{pcode} in the backend call  [when {guard}]"
+                    rep.refuted("R-C65-forward", rel, qn, text, f"{p} (executor {execcls.name}, backend {kind}.{bname}; statement `{norm(st)[:80]}`)",
                                 line=getattr(st, "lineno", 0), executor=execcls.name)
             else:
                 rep.proved("R-C65-forward", where, f"binds as {kind}.{bname} [{bshape}]")
